@@ -91,6 +91,13 @@ pub struct RecorderSpec {
     pub irregular: Irregular,
     /// 0 = all payload bytes random; n>0 = roughly 1 field in n forced to a boundary pattern
     pub special_rate: u8,
+    /// keep the Gecko list even below 3.3 (outside the recorder envelope; only used where a
+    /// property quantifies over every game rather than over well-formed recordings)
+    #[serde(default)]
+    pub force_gecko: bool,
+    /// unfinalised file: the header declares raw length 0 (the recorder never patched it)
+    #[serde(default)]
+    pub raw_len_zero: bool,
 }
 
 #[derive(Serialize, Deserialize, Clone, Debug, PartialEq)]
